@@ -1,0 +1,35 @@
+//! Verification hooks. Compiled only with `--cfg boa_verif`; no effect on normal builds.
+#![allow(missing_docs, clippy::missing_panics_doc, clippy::must_use_candidate)]
+
+use std::cell::{Cell, RefCell};
+
+thread_local! {
+    static INLINE_CACHES_ON: Cell<bool> = const { Cell::new(true) };
+    static IC_RECORD: Cell<bool> = const { Cell::new(false) };
+    static IC_EVENTS: RefCell<Vec<String>> = const { RefCell::new(Vec::new()) };
+}
+
+/// Turn the inline caches off (`InlineCache::get` always misses, `set` is a no-op) or back on.
+pub fn set_inline_caches(on: bool) {
+    INLINE_CACHES_ON.with(|c| c.set(on));
+}
+
+pub fn inline_caches_on() -> bool {
+    INLINE_CACHES_ON.with(Cell::get)
+}
+
+/// Start/stop recording one line per `InlineCache::get` / `InlineCache::set` call.
+pub fn record_ic_events(on: bool) {
+    IC_RECORD.with(|c| c.set(on));
+}
+
+pub fn take_ic_events() -> Vec<String> {
+    IC_EVENTS.with(|e| std::mem::take(&mut *e.borrow_mut()))
+}
+
+pub(crate) fn ic_event(f: impl FnOnce() -> String) {
+    if IC_RECORD.with(Cell::get) {
+        let line = f();
+        IC_EVENTS.with(|e| e.borrow_mut().push(line));
+    }
+}
